@@ -14,11 +14,15 @@ import (
 	"time"
 
 	"github.com/codenotary/immudb/embedded/logger"
+	"github.com/codenotary/immudb/pkg/pgsql/server/pgmeta"
 
 	"verif/internal/vk"
 )
 
 func TestMain(m *testing.M) {
+	// pgsql: ReadRawMessage refuses frames above pgmeta.MaxMsgSize (a variable, 32 MiB by default) and ParseBindMsg
+	// bounds every parameter with it. The same bound scaled down keeps one Bind evaluation at <= 8 MiB instead of 64.
+	pgmeta.MaxMsgSize = 4 << 20
 	if childMain() {
 		return
 	}
@@ -38,6 +42,7 @@ func TestMain(m *testing.M) {
 			"allocation is measured with runtime/metrics /gc/heap/allocs:bytes around the call; background goroutines of the same process allocate far less than the 64 MiB threshold during one call; a reading above the bound is confirmed by re-running pure decoders twice (minimum counts), stateful targets (ReplicateTx, open, client calls) use a 1 GiB bound instead",
 			"liveness: a call is a hang only after 30 s of wall time AND 20 s of process CPU time (busy loop, gigabyte memset), or after 240 s whatever the CPU (deadlock); nothing is failed for being slow on a loaded machine",
 			"ReplicateTx inputs whose header ID is ahead of the replica wait for the missing predecessor by design; they are called with a 150 ms context and must return an error",
+			"pgmeta.MaxMsgSize (the frame/parameter size limit of the pgsql server, a package variable) is set to 4 MiB instead of 32 MiB for the whole run: same code paths, 8x less memory churn per Bind evaluation",
 			"pgsql session read loop over net.Pipe is not driven (session type is unexported and needs a full server); its per-message parsers (fmessages.Parse*) are called with exactly the payloads ReadRawMessage can hand over (any length 0..MaxMsgSize)",
 			"native fuzz targets run in the thorough tier only; quick tier replays their seed corpus",
 		},
